@@ -80,7 +80,7 @@ def r1_decisions_recorded(ctx):
     M_adv = prog.must_call({ADV}, invoke_closure_callees={ES + "with"}) | {ADV}
     if ctx.floor("C01.R1", "catch_unwind(resume) in run_to_completion", len(cu), 1):
         # the continuation to resume is produced (Some(..)) by the closure only after advance; the resume is controlled by that result
-        c0b = prog.get(E + "Execution::run_to_completion::{closure#0}")
+        c0b = ctx.closure(E + "Execution::run_to_completion", ADV, "C01.R1")
         somes = [s for s, st in c0b.assigns() if st["rv"]["k"] == "aggr" and st["rv"].get("variant") == "Some"] if c0b else []
         dom_ok = bool(somes) and all(kinds.must_precede(prog, c0b, s, {ADV}) is None for s in somes)
         sl_r = Slicer(rtc, control=True)
@@ -89,18 +89,19 @@ def r1_decisions_recorded(ctx):
         for sw in cd_r.get(cu[0].bb, ()):
             l, _ = sl_r.slice_operand(rtc.term(sw)["discr"])
             labs |= l
-        ctrl_ok = ("call:" + ES + "with") in labs or ("call:" + E + "Execution::run_to_completion::{closure#0}") in labs
+        ctrl_ok = ("call:" + ES + "with") in labs or ("call:" + c0b.nkey) in labs
         ctx.ob("C01.R1", "resume-after-advance", dom_ok and ctrl_ok,
                "a continuation is handed out for resumption only after advance_to_next_task recorded the decision, and the resume is controlled by that hand-out "
                "(%d hand-out sites)" % len(somes), loc=rtc.loc(cu[0]))
-    c0 = prog.get(E + "Execution::run_to_completion::{closure#0}")
-    if c0 is not None:
+    c0 = ctx.closure(E + "Execution::run_to_completion", ADV, "C01.R1")
+    if True:
         a = [s for s, t in c0.calls() if ADV in c0.callees_of_call(t, passed=False)]
         sc = [s for s, t in c0.calls() if ES + "schedule" in c0.callees_of_call(t, passed=False)]
         ctx.ob("C01.R1", "schedule-then-advance", bool(a) and bool(sc) and c0.site_dominates(sc[0], a[0]),
                "run_to_completion consults the scheduler (schedule) before advancing", loc=c0.loc())
     # maybe_yield: returning false (no context switch) only after advance
-    my = prog.get(ES + "maybe_yield::{closure#0}")
+    mys = kinds.closures_calling(prog, ES + "maybe_yield", ADV)
+    my = mys[0] if len(mys) == 1 else None
     if my is None:
         ctx.ob("C01.R1", "anchor|maybe_yield closure", False, "closure of maybe_yield not found — rule not established", nontrivial=False)
     else:
